@@ -215,7 +215,7 @@ def parse_cases(ctx, cases, label, reps=1):
 def check_c24(ctx):
     q = ctx.tier == "quick"
     ctx.cov["rule"] = ("cases = pairs of pipelined messages printed by TLC (GenParse): request-line variant x list of "
-                       "header-line variants (26-variant alphabet) x tail (no bytes / A bytes / B bytes / chunked body) x "
+                       "header-line variants (26-variant alphabet; request line = method x version, 14 variants) x tail (no bytes / A bytes / B bytes / chunked body) x "
                        "second message; exhaustive up to the stated number of header lines, -simulate beyond; each with "
                        "Layer P's class (reject / accept / ifacc / gray), RFC 7230 3.3.3 framing, body length and the "
                        "offset of the next request. cmd/http1 parse renders them (canonical + seeded spellings, delivery "
@@ -225,20 +225,26 @@ def check_c24(ctx):
     # every Gen run checks Conform (Layer M allowed by Layer P) in every state it prints, so the exhaustive Gen
     # run is the MC run of the quick tier; thorough adds a deeper Conform-only run.
     tails = '{"none", "a", "b", "ch"}'
+    allhv = ('{"F", "WSC", "WSCL", "WSTE", "BADN", "CLa", "CLb", "CLplus", "CLbad", "CLlist", "CLempty", "TEc", "TEg", '
+             '"TEgc", "TEcg", "TEi", "TEci", "TEic", "TEcc", "TEx", "OBS", "EMPTYN", "NOCOLON", "FLF", "CLaLF", "FCR"}')
+    # after a request line whose method is varied (HEAD, PUT, DELETE, OPTIONS, CONNECT, PATCH, TRACE) the quick
+    # tier uses the framing-relevant core of the alphabet; thorough uses all of it up to 2 lines
+    corehv = '{"F", "CLa", "CLb", "TEc", "TEg", "WSCL", "CLbad", "TEci"}'
     cases = []
-    g1 = {"LINES": 2, "GLINES": 1, "TAILS": tails, "M2S": "{2, 3}" if q else "{1, 2, 3, 4, 5}"}
+    g1 = {"LINES": 2, "GLINES": 1, "TAILS": tails, "M2S": "{2, 3}" if q else "{2, 3, 6}",
+          "MHVS": corehv if q else allhv}
     ctx.cov["constants"]["Gen_Parse_exhaustive"] = dict(g1, A=30, B=35, CHLEN=41)
     cases += _gen(ctx, "GenParse", "Gen_Parse.cfg", g1, timeout=1500, count=True)
     if not q:
-        mcd = {"LINES": 3, "GLINES": 2}
+        mcd = {"LINES": 3, "GLINES": 2, "MHVS": corehv}
         ctx.cov["constants"]["MC_Parse"] = mcd
         ctx.tlc_must_pass(SPEC, "GenParse", "MC_Parse.cfg", defines=mcd, timeout=2400)
-        g2 = {"LINES": 3, "GLINES": 1, "TAILS": tails, "M2S": "{1}"}
+        g2 = {"LINES": 3, "GLINES": 1, "TAILS": tails, "M2S": "{1}", "MHVS": corehv}
         ctx.cov["constants"]["Gen_Parse_exhaustive3"] = g2
         cases += _gen(ctx, "GenParse", "Gen_Parse.cfg", g2, timeout=2400)
-    g3 = {"LINES": 4, "GLINES": 2, "TAILS": tails, "M2S": "{1, 2, 3, 4, 5}"}
+    g3 = {"LINES": 4, "GLINES": 2, "TAILS": tails, "M2S": "{1, 2, 3, 4, 5, 6, 7}", "MHVS": allhv}
     ctx.cov["constants"]["Gen_Parse_simulate"] = g3
-    r = ctx.tlc(SPEC, "GenParse", "Gen_Parse.cfg", mode="sim", sim_num=250 if q else 4000, sim_depth=5,
+    r = ctx.tlc(SPEC, "GenParse", "Gen_Parse.cfg", mode="sim", sim_num=250 if q else 2500, sim_depth=5,
                 defines=g3, timeout=1500, count=False)
     if not r.ok or not r.cases:
         raise vlib.MachineryError("GenParse -simulate failed: %s %s" % (r.error or r.violation, r.out[-500:]))
@@ -252,7 +258,7 @@ def check_c24(ctx):
         "length): leading empty line, bare-LF request line, missing version, obs-fold on framing fields or first "
         "line, empty field name, line without colon, signed / list / empty Content-Length, TE on HTTP/1.0, "
         "chunked twice, identity alone",
-        "every request line carries a Host field; request targets and methods are not varied (C25 covers them)",
+        "every request line carries a Host field; the method is varied (GET, POST, HEAD, PUT, DELETE, OPTIONS, CONNECT, PATCH, TRACE: for a request it never implies an absent body), request targets are not (C25)",
         "Go's net/http.ReadRequest is run on the same bytes as an independent witness (diagnostic, see notes)",
     ]
 
